@@ -68,6 +68,26 @@ CLAIMS = {
    note=TB+"Programs: skeleton types (+ names when registered); field names concrete (arbitrary-string comparison is C19).",
    technique="symbolic execution of go/ssa with native go/types bridge; differential against a reference matcher; Go type checker as judge; native replay",
    ref="4/C04"),
+ "C05": dict(
+   text="Symbolic execution of the real assignment builder on shape skeletons (native go/types objects) for every pair of notations from a 77x13 menu: an independent walker recomputes the reachable destination leaves from go/types and each must be covered by exactly one emitted line (on itself or an enclosing path), members invisible to the package must never be mentioned (incl. a setup package sharing its NAME with the imported one), every no-match must be warned on stderr with a position; plus the 35x35 type matrix. Emitted functions are type-checked.",
+   note=TB+"Programs: skeletons shapes, samename, types.",
+   technique="symbolic execution of go/ssa with native go/types bridge; independent leaf walker; Go type checker as judge; native replay",
+   ref="4/C05"),
+ "C06": dict(
+   text="Same exploration as C05 with the precedence and source obligations of explicit notations checked per destination path against the chosen notation texts: :skip (exact, nested, regexp, case rule) never assigned whatever else applies; first :conv, then :map, then $n-map, then :literal naming the path supplies exactly that converter call / source expression / literal, else no match; never the default name match.",
+   note=TB+"Notation texts come from menus (concrete), not arbitrary strings; one known finding (contradictory notations on a struct and its member) is listed in known_findings.json.",
+   technique="symbolic execution of go/ssa with native go/types bridge; property oracles over the emitted assignment list; native replay",
+   ref="4/C06"),
+ "C01": dict(
+   text="For every explored path of the mode-T harnesses (type matrix 35x35 x toggles, name variants, shape skeletons x notation menus, 120 signatures x style/reverse/receiver, malformed-notation menu) the function texts produced by the real builder+emitter are spliced into the skeleton package in place of the setup file and TYPE-CHECKED by go/types (ordinary build tags); rejection or no-match is the only alternative to well-typed output.",
+   note=TB+"NOT decided: the assembled file (base code printing, regexp cut, imports.Process, format.Source, gofmt-cleanliness) - library internals; unused imports are ignored by the judge because goimports prunes them.",
+   technique="symbolic execution of go/ssa with native go/types bridge; Go type checker as per-path judge; native replay",
+   ref="4/C01"),
+ "C16": dict(
+   text="Mode T: the slice strategy decided by the real sliceToSlice for every element-type pair of the type matrix with :typecast symbolic (fresh-storage copy iff elements assignable, converting loop iff opted in and convertible, else the general ladder), each emitted function type-checked (copy() only on identical element types). Run-time aliasing/nil behaviour of the generated code: mode G when registered.",
+   note=TB+"Programs: skeleton types.",
+   technique="symbolic execution of go/ssa with native go/types bridge; reference matcher; Go type checker as judge",
+   ref="4/C16"),
 }
 
 NA_REASON = "check under construction in this session (engine exists, harness not yet registered); see DESIGN.md section 4"
